@@ -7,7 +7,7 @@ use crate::exec::{execute, execute_with, Ev, Outcome, Prov};
 use crate::gen::{gen_cfg, gen_logical, GenOpts, Speller};
 use crate::json::J;
 use crate::model::{Answer, Case, ErrSpec, Kind, Script};
-use crate::mon::{judge, mon_provider_discipline, violation, Agreement};
+use crate::mon::{judge, mon_provider_discipline, mon_taxonomy, violation, Agreement};
 use crate::prng::Rng;
 use crate::rm::decide::{Carrier, Stage, Verdict};
 use crate::run::{finish, preflight, Ctx, Report, Tally, Tier};
@@ -44,6 +44,12 @@ pub fn all_errors(nonce: &str) -> Vec<ErrSpec> {
     v.push(ErrSpec::Custom(format!("{}-custom", nonce)));
     v.push(ErrSpec::Io(format!("{}-io", nonce)));
     v.push(ErrSpec::Nested(format!("{}-nested", nonce)));
+    v.push(ErrSpec::NestedSig(Kind::InvalidClientTokenId, format!("{}-nested-sig", nonce)));
+    v.push(ErrSpec::WrappedSig(Kind::ExpiredToken, format!("{}-wrapped-sig", nonce)));
+    v.push(ErrSpec::KeyTooLong);
+    v.push(ErrSpec::SigNone);
+    v.push(ErrSpec::IoKind(2, format!("{}-timed-out", nonce)));
+    v.push(ErrSpec::Sig(Kind::InvalidClientTokenId, String::new()));
     v
 }
 
@@ -80,21 +86,32 @@ pub fn all_scripts(secret: &str, nonce: &str) -> Vec<(String, Script)> {
 }
 
 fn class_case(seed: u64, wl: &str, shard: u64, i: u64, class: usize, carrier: Carrier) -> Option<Case> {
+    class_case_named(seed, wl, shard, i, CLASSES[class].1, carrier)
+}
+
+/// A request of the class that injector `inj_name` produces ("" = valid). Every other case is "rich": the service
+/// declares signed-header requirements (any container), form folding may be on with a form body, and the wire spelling
+/// is varied — none of which changes when the provider may be consulted.
+fn class_case_named(seed: u64, wl: &str, shard: u64, i: u64, inj_name: &str, carrier: Carrier) -> Option<Case> {
     let mut r = Rng::keyed(seed, "C14", wl, shard, i);
+    let rich = i % 2 == 1;
     let mut cfg = gen_cfg(&mut r);
-    cfg.fold = false;
+    if rich {
+        cfg.reqs = crate::props::c05::gen_reqs(&mut r).0;
+    } else {
+        cfg.fold = false;
+    }
     let o = GenOpts {
         carrier: Some(carrier),
-        allow_form: false,
+        allow_form: rich,
         ..Default::default()
     };
     let l = gen_logical(&mut r, &cfg, &o);
-    let inj_name = CLASSES[class].1;
     let chosen: Vec<usize> = INJECTORS.iter().enumerate().filter(|(_, j)| j.name == inj_name).map(|(k, _)| k).collect();
     let mut sr = Rng::keyed(seed, "C14", "spell", shard, i);
     let mut sp = Speller {
         r: &mut sr,
-        level: 0,
+        level: rich as u8,
     };
     let (case, applied) = build_case(&l, &cfg, &chosen, &mut r, &mut sp);
     if !inj_name.is_empty() && applied.is_empty() {
@@ -106,6 +123,11 @@ fn class_case(seed: u64, wl: &str, shard: u64, i: u64, class: usize, carrier: Ca
 /// Event-log checker for one validation.
 fn check_events(t: &mut Tally, case: &Case, rec: &crate::exec::Record, script_name: &str, class: &str, car: &str) -> bool {
     if let Some(v) = mon_provider_discipline(case, rec) {
+        t.violate(v);
+        return false;
+    }
+    // whatever the provider said comes back as a SignatureError whose kind fixes code and status (a foreign error: 500)
+    if let Some(v) = mon_taxonomy(case, rec) {
         t.violate(v);
         return false;
     }
@@ -196,7 +218,17 @@ fn enumerate(seed: u64, shard: u64, shards: u64) -> Tally {
     let mut t = Tally::new();
     let scripts = all_scripts("wJalrXUtnFEMI/K7MDENG+bPxRfiCYEXAMPLEKEY", "nonce");
     let mut idx = 0u64;
-    for (ci, (class, _)) in CLASSES.iter().enumerate() {
+    // the fifteen classes under every script; every other defect that is caught before key lookup under a diagonal of
+    // sixteen scripts
+    let mut classes: Vec<(String, &'static str, bool)> = CLASSES.iter().map(|(c, i)| (c.to_string(), *i, true)).collect();
+    for j in INJECTORS.iter() {
+        if j.stage < Stage::Provider && !CLASSES.iter().any(|(_, i)| *i == j.name) {
+            classes.push((format!("extra:{}", j.name), j.name, false));
+        }
+    }
+    let diag = (scripts.len() / 16).max(1);
+    for (ci, (class, inj_name, full)) in classes.iter().enumerate() {
+        let class = &class.as_str();
         for carrier in [Carrier::Header, Carrier::Query] {
             let car = if carrier == Carrier::Header {
                 "hdr"
@@ -207,6 +239,9 @@ fn enumerate(seed: u64, shard: u64, shards: u64) -> Tally {
                 continue;
             }
             for (si, (sname, script)) in scripts.iter().enumerate() {
+                if !*full && si % diag != (ci % diag) {
+                    continue;
+                }
                 idx += 1;
                 if idx % shards != shard {
                     continue;
@@ -216,7 +251,7 @@ fn enumerate(seed: u64, shard: u64, shards: u64) -> Tally {
                 // that every (class, carrier, script) combination is decided.
                 let mut attempt = 0u64;
                 let (case, rec) = loop {
-                    let Some(mut case) = class_case(seed, "enum", ci as u64 * 2 + (carrier == Carrier::Query) as u64, si as u64 + attempt * 1_000_003, ci, carrier) else {
+                    let Some(mut case) = class_case_named(seed, "enum", ci as u64 * 2 + (carrier == Carrier::Query) as u64, si as u64 + attempt * 1_000_003, inj_name, carrier) else {
                         t.count("class_inapplicable");
                         attempt += 1;
                         if attempt >= 8 {
@@ -267,6 +302,28 @@ fn enumerate(seed: u64, shard: u64, shards: u64) -> Tally {
                     continue;
                 }
                 if check_events(&mut t, &case, &rec, sname, class, car) {
+                    // the same validation with the crate's own adapter (`service_for_signing_key_fn` around a closure) as the
+                    // provider: same outcome, same single call with the same arguments
+                    if case.script.ready_pending == 0 && case.script.ans_pending == 0 && case.script.ready_err.is_none() {
+                        let rec2 = crate::exec::execute_via_adapter(&case);
+                        t.eval();
+                        let calls = |r: &crate::exec::Record| -> Vec<Ev> { r.events.iter().filter(|e| matches!(e, Ev::Call { .. })).cloned().collect() };
+                        if rec2.outcome.digest() != rec.outcome.digest() || calls(&rec2) != calls(&rec) {
+                            t.violate(violation(
+                                "provider-adapter",
+                                &format!("{}/{}", class, script_shape(sname)),
+                                format!("with service_for_signing_key_fn as the provider: outcome {} / calls {:?}; with a hand-written Service: {} / {:?}", rec2.outcome.brief(), calls(&rec2), rec.outcome.brief(), calls(&rec)),
+                                &case,
+                                None,
+                            ));
+                            continue;
+                        }
+                        if let Some(v) = mon_taxonomy(&case, &rec2) {
+                            t.violate(v);
+                            continue;
+                        }
+                        t.count("adapter_route_agrees");
+                    }
                     t.count(&format!("cell/{}/{}", class, car));
                     t.nontrivial(case.hash());
                     if si % 37 == 0 {
@@ -345,7 +402,7 @@ fn histories(seed: u64, shard: u64, n: u64) -> Tally {
                 ok = false;
                 break;
             }
-            if let Some(v) = mon_provider_discipline(&case, &rec) {
+            if let Some(v) = mon_provider_discipline(&case, &rec).or_else(|| mon_taxonomy(&case, &rec)) {
                 t.violate(v);
                 ok = false;
                 break;
@@ -398,16 +455,30 @@ pub fn run(tier: Tier) -> i32 {
         }
     }
     ctx.gate("(request class × carrier) cells with every script executed and decided", hit, cells);
+    let mut xcells = 0;
+    let mut xhit = 0;
+    for j in INJECTORS.iter() {
+        if j.stage < Stage::Provider && !CLASSES.iter().any(|(_, i)| *i == j.name) {
+            for car in ["hdr", "qry"] {
+                xcells += 1;
+                if tally.get(&format!("cell/extra:{}/{}", j.name, car)) >= 8 {
+                    xhit += 1;
+                }
+            }
+        }
+    }
+    ctx.gate("(every other pre-lookup defect × carrier) cells decided under a diagonal of 16 scripts", xhit, xcells);
     for class in ["valid", "signature"] {
         ctx.gate(&format!("pending readiness observed, class {}", class), tally.get(&format!("pending_readiness/{}", class)), 100);
         ctx.gate(&format!("pending answer observed, class {}", class), tally.get(&format!("pending_answer/{}", class)), 100);
     }
+    ctx.gate("validations repeated with the crate's own adapter (service_for_signing_key_fn) as the provider, same outcome and call", tally.get("adapter_route_agrees"), tier.n(300, 600));
     ctx.gate("provider errors passed on with the right class and text", tally.get("provider_error_passed_on"), 1000);
     ctx.gate("histories with ≥ 3 distinct outcomes", tally.get("histories_with_3_distinct_outcomes"), tier.n(1000, 50_000));
     ctx.exhaustive("provider scripts: readiness Pending×a then Ready|Err(16 kinds); answer Pending×b then right key | wrong key | Err(16 kinds); a, b ∈ 0..=3 — × 14 request classes × 2 carriers", true);
     let rep = Report {
         level: "fault_enumeration",
-        rule: "Complete enumeration, within the stated bounds, of provider behaviours (readiness delayed 0–3 polls then ready or failing with each of the 12 SignatureError kinds / a String / a custom type / a bare io::Error / a nested error; answer delayed 0–3 polls then the right key, a wrong key, or each of those 16 errors — 352 scripts) × request classes (valid; one defect at each of the 12 checks before key lookup; wrong signature) × both carriers; plus random histories of 5–50 validations sharing one provider instance. Oracle: offline checker over the recorded provider event log (poll_ready / call / future polls) against the reference model: no event at all for requests refused earlier, exactly one call after a Ready(Ok), protocol order, errors returned as (kind, text) exactly, never Ok after an error or with a wrong key; histories: per-step outcome and log equal to a fresh provider's, total calls = number of validations that reach key lookup. Distinct = distinct decided (script, class, carrier) cases and histories.".into(),
+        rule: "Complete enumeration, within the stated bounds, of provider behaviours (readiness delayed 0–3 polls then ready or failing with each of the 12 SignatureError kinds / a String / a custom type / a bare io::Error (also of kind TimedOut) / a nested error / a foreign error whose source() is a SignatureError / InternalServiceError wrapping a SignatureError / the crate's KeyTooLongError / SignatureDoesNotMatch(None) / an empty message; answer delayed 0–3 polls then the right key, a wrong key, or each of those 22 errors — 472 scripts) × request classes (valid; one defect at each of the 12 checks before key lookup; wrong signature; a signature made with guessable key material) × both carriers, every other pre-lookup defect injector under a diagonal of 16 scripts; every other case with declared signed-header requirements, form folding and varied spelling; scripts without readiness behaviour are repeated with the crate's own adapter service_for_signing_key_fn as the provider; plus random histories of 5–50 validations sharing one provider instance. Oracle: offline checker over the recorded provider event log (poll_ready / call / future polls) against the reference model: no event at all for requests refused earlier, exactly one call after a Ready(Ok), protocol order, errors returned as (kind, text) exactly and always as a SignatureError whose kind fixes code and status (a foreign error: InternalFailure/500), never Ok after an error or with a wrong key; histories: per-step outcome and log equal to a fresh provider's, total calls = number of validations that reach key lookup. Distinct = distinct decided (script, class, carrier) cases and histories.".into(),
         assumptions: vec!["the number and timing of Pending returns of the validation future itself are not constrained (DESIGN §6)".into()],
         extra: J::obj().set("calibrated_vectors", J::i(pre.unwrap_or(0) as i64)).set("scripts", J::i(scripts as i64)),
     };
